@@ -462,7 +462,9 @@ def build_world(sim):
     w.put_file(PATHS["bigout"], "#!bigout\n")
     # a child that writes a lot to stderr / to stdout
     w.programs[PATHS["noisy"]] = (0, "o1\no2\n", "E" * 200000)
-    w.programs[PATHS["bigout"]] = (0, "line\n" * 40000, "warn\n")
+    # (few but long lines: a script that reads the captured output line
+    # by line must not need more steps than the budget allows)
+    w.programs[PATHS["bigout"]] = (0, ("L" * 9999 + "\n") * 20, "warn\n")
     w.programs[PATHS["prog"]] = (0, "tool output\n")
     w.programs[PATHS["failprog"]] = (3, "")
     w.programs["tool"] = (0, "tool output\n")
@@ -470,7 +472,7 @@ def build_world(sim):
 
 def run_case(case, root):
     cfg = case["config"]
-    sim = Sim(root, cfg.get("prng", 0.5), budget=300_000)
+    sim = Sim(root, cfg.get("prng", 0.5), budget=600_000)
     res = {"violations": [], "probes": {}, "counters": {}, "configured": {},
            "extra_fps": []}
     viol = res["violations"]
